@@ -1,0 +1,44 @@
+// SPDX-FileCopyrightText: 2026 The Pion community <https://pion.ly>
+// SPDX-License-Identifier: MIT
+
+//go:build verif
+
+package nack
+
+// VerifSizes returns the number of entries of every container the generator holds
+// (verification harness only).
+func (n *GeneratorInterceptor) VerifSizes() map[string]int {
+	n.receiveLogsMu.Lock()
+	defer n.receiveLogsMu.Unlock()
+	inner, bits := 0, 0
+	for _, m := range n.nackCountLogs {
+		inner += len(m)
+	}
+	for _, l := range n.receiveLogs {
+		bits += len(l.packets)
+	}
+
+	return map[string]int{
+		"logs":      len(n.receiveLogs),
+		"logwords":  bits,
+		"counts":    len(n.nackCountLogs),
+		"countents": inner,
+	}
+}
+
+// VerifSizes returns the number of bound streams and the ring slots in use over all of them
+// (verification harness only).
+func (n *ResponderInterceptor) VerifSizes() map[string]int {
+	n.streamsMu.Lock()
+	defer n.streamsMu.Unlock()
+	used, slots := 0, 0
+	for _, s := range n.streams {
+		s.rtpBufferMutex.RLock()
+		u, sz := s.rtpBuffer.VerifInUse()
+		s.rtpBufferMutex.RUnlock()
+		used += u
+		slots += sz
+	}
+
+	return map[string]int{"streams": len(n.streams), "used": used, "slots": slots}
+}
